@@ -1160,6 +1160,53 @@ fn run_big(c: &mut Ctx) {
     }
 }
 
+/// RFC 1950 / 1951 stored-block encoder, as `Spec/Inflate.zlibStored` (the encoder of the round-trip theorem `zlib_stored_rt`)
+fn zlib_stored(x: &[u8]) -> Vec<u8> {
+    let mut out = vec![0x78u8, 0x01];
+    let mut rest = x;
+    loop {
+        let n = rest.len().min(65535); let last = rest.len() <= 65535;
+        out.push(if last { 1 } else { 0 });
+        out.extend_from_slice(&(n as u16).to_le_bytes()); out.extend_from_slice(&(!(n as u16)).to_le_bytes());
+        out.extend_from_slice(&rest[..n]); rest = &rest[n..];
+        if last { break; }
+    }
+    let (mut a, mut b) = (1u32, 0u32); for v in x { a = (a + *v as u32) % 65521; b = (b + a) % 65521; }
+    out.extend_from_slice(&((b << 16) | a).to_be_bytes());
+    out
+}
+
+/// the specification inflate (`Spec/Inflate.lean`, the decoder the reader model uses for Flate-coded structural streams) against
+/// flate2: every compression level (stored / fixed / dynamic blocks), streams without their Adler-32 (complete data: decoded),
+/// streams cut inside the data (`none`); and the Lean stored-block ENCODER of the round-trip theorem against flate2's decoder
+fn run_inflate(c: &mut Ctx) {
+    for i in 0..c.n(150, 2500) {
+        let Some(mut r) = c.case("inflate", i) else { continue };
+        let plain = match i % 25 { 0 => { let n = 65000 + r.usize(80000); if i % 2 == 0 { (0..n).map(|k| (k % 251) as u8).collect() } else { r.bytes(n) } }, 1 => vec![], 2 => vec![b'a'; 3000 + r.usize(3000)],
+            3 => { let wl = 1 + r.usize(40); let w = r.bytes(wl); let mut v = vec![]; while v.len() < 2000 { v.extend_from_slice(&w); } v },
+            _ => { let mut v = gen_plain(&mut r, 1500); if r.chance(1, 2) { let alpha = b"0123456789 obj<>/[]R\nendstream"; v = (0..v.len()).map(|_| *r.pick(alpha)).collect(); } v } };
+        if !plain.is_empty() { c.nontrivial(&format!("infl{}", i)); }
+        let big = plain.len() > 20000;
+        for level in [0u32, 1, 6, 9] {
+            if big && level != 0 && level != 6 { continue; }
+            let z = zlib_encode(&plain, level);
+            c.evaluations += 1; c.count(&format!("inflate.level{}", level));
+            c.corr(format!("inflate {}", hex_tok(&z)), format!("ok {}", hex_tok(&plain)));
+            if !big {
+                // without (part of) the Adler-32 the data is still complete; cut further it is not
+                let cut = 1 + r.usize(4); c.corr(format!("inflate {}", hex_tok(&z[..z.len() - cut])), format!("ok {}", hex_tok(&plain))); c.count("inflate.adler_cut");
+                if z.len() > 12 { let cut = 5 + r.usize(z.len() - 11); c.corr(format!("inflate {}", hex_tok(&z[..z.len() - cut])), "none".into()); c.count("inflate.data_cut"); }
+            }
+        }
+        // the theorem's encoder: Lean bytes = this rendering, and flate2 decodes them to the plaintext
+        let st = zlib_stored(&plain);
+        c.corr(format!("deflate_stored {}", hex_tok(&plain)), format!("ok {}", hex_tok(&st)));
+        if ext_inflate(&st) != plain { c.oracle_fail("stored-encoder", "flate2 does not decode the stored-block reference encoder's output to the plaintext", json!({"plain_len": plain.len()})); }
+        let mut strict = flate2::read::ZlibDecoder::new(&st[..]); let mut o = vec![];
+        if strict.read_to_end(&mut o).is_err() || o != plain { c.oracle_fail("stored-encoder", "flate2 reports an error on the stored-block reference encoder's output", json!({"plain_len": plain.len()})); }
+    }
+}
+
 pub fn run(c: &mut Ctx) {
     c.rule = "plaintexts x reference encoders (own PNG filter encoder incl. mixed rows, own ASCII85 encoder with z / layout variants, flate2, weezl \
 EarlyChange 0/1) x chains of length 1-3 over {Flate, LZW, ASCII85} x {no parms, dictionary, array} x Predictor {absent,1,10..15} x Columns 1-12 x Colors 1-4 x \
@@ -1171,6 +1218,7 @@ any malformed / edit case; distinct by request text.".into();
     run_witnesses(c);
     run_length_forms(c);
     run_big(c);
+    run_inflate(c);
     run_a85(c);
     run_png(c);
     run_lzw(c);
